@@ -17,7 +17,6 @@ package scen
 
 import (
 	"bytes"
-	"context"
 	"encoding/json"
 	"fmt"
 	"io"
@@ -28,6 +27,7 @@ import (
 	"os/exec"
 	"path/filepath"
 	"runtime"
+	"runtime/pprof"
 	"sort"
 	"strconv"
 	"strings"
@@ -346,6 +346,9 @@ type c08RunMeasure struct {
 // c08RunWatched runs the job on its own goroutine and waits for the event
 // "Run returned". A watchdog (never a verdict) kills the job if it does not
 // end; hung = "" | "killed" (ended after KillJob) | "stuck".
+// c08LastDump: goroutine profile taken when the in-run watchdog fired (evidence for an inconclusive, never a verdict)
+var c08LastDump string
+
 func c08RunWatched(j *jobs.VerifC08Job, kill func()) (panicked string, hung string) {
 	done := make(chan struct{})
 	go func() {
@@ -361,6 +364,12 @@ func c08RunWatched(j *jobs.VerifC08Job, kill func()) (panicked string, hung stri
 	case <-done:
 		return panicked, ""
 	case <-time.After(c08RunWatchdog):
+	}
+	var gb bytes.Buffer
+	_ = pprof.Lookup("goroutine").WriteTo(&gb, 1)
+	c08LastDump = gb.String()
+	if len(c08LastDump) > 12000 {
+		c08LastDump = c08LastDump[:12000]
 	}
 	kill()
 	select {
@@ -450,7 +459,7 @@ func (s *c08Run) runJob(typ string, arm func()) c08Outcome {
 	}
 	o.Panic, o.Hung = c08RunWatched(j, func() { s.env.sched.KillJob(c08JobID) })
 	if o.Hung != "" {
-		s.ctx.Out.Inconclusive(s.id, "C08", "watchdog: job run did not end ("+o.Hung+")")
+		s.ctx.Out.Emit(map[string]any{"t": "inconclusive", "case": s.id, "prop": "C08", "why": "watchdog: job run did not end (" + o.Hung + ")", "goroutines": c08LastDump})
 		s.abort = true
 		if o.Hung == "stuck" {
 			s.stuck = true
@@ -1150,22 +1159,44 @@ func (s *c08Run) crashPrefix() bool {
 		return false
 	}
 	subOut := filepath.Join(s.dir+"-w", "out.jsonl")
-	cctx, cancel := context.WithTimeout(context.Background(), 2*c08RunWatchdog+time.Minute)
-	defer cancel()
-	cmd := exec.CommandContext(cctx, os.Args[0], "-scenario", "c08jobs", "-seed", strconv.FormatInt(s.ctx.Seed, 10), "-cases", "1", "-tier", s.ctx.Tier,
+	cmd := exec.Command(os.Args[0], "-scenario", "c08jobs", "-seed", strconv.FormatInt(s.ctx.Seed, 10), "-cases", "1", "-tier", s.ctx.Tier,
 		"-scratch", s.dir+"-w", "-out", subOut, "-replay", caseFile, "-args", "mode=writer,store="+s.dir)
 	errFile := filepath.Join(s.dir+"-w", "stderr.txt")
 	ef, _ := os.Create(errFile)
 	cmd.Stdout, cmd.Stderr = ef, ef
 	s.ctx.Out.Begin(s.id, f.Step, fmt.Sprintf("sub-child: steps 0..%d, %s", f.Step, s.faultClass()))
-	err := cmd.Run()
+	err := cmd.Start()
+	subTimedOut := false
+	if err == nil {
+		waited := make(chan error, 1)
+		go func() { waited <- cmd.Wait() }()
+		select {
+		case err = <-waited:
+		case <-time.After(2*c08RunWatchdog + time.Minute):
+			subTimedOut = true
+			_ = cmd.Process.Signal(syscall.SIGQUIT) // goroutine dump into its stderr file
+			select {
+			case err = <-waited:
+			case <-time.After(5 * time.Second):
+				_ = cmd.Process.Kill()
+				err = <-waited
+			}
+		}
+	}
 	if ef != nil {
 		ef.Close()
 	}
 	s.ctx.Out.Ack(s.id, f.Step, nil)
 	s.ctx.Out.Stat("subchildren", 1)
-	if cctx.Err() != nil {
-		s.ctx.Out.Inconclusive(s.id, "C08", "watchdog: sub-child did not end")
+	if subTimedOut {
+		tail, _ := os.ReadFile(errFile)
+		if i := bytes.Index(tail, []byte("SIGQUIT")); i >= 0 {
+			tail = tail[i:]
+		}
+		if len(tail) > 12000 {
+			tail = tail[:12000]
+		}
+		s.ctx.Out.Emit(map[string]any{"t": "inconclusive", "case": s.id, "prop": "C08", "why": "watchdog: sub-child did not end", "goroutines": string(tail)})
 		s.abort = true
 		return false
 	}
@@ -1296,6 +1327,35 @@ func c08Gen(r *rand.Rand) C08Sched {
 	return sc
 }
 
+// c08GenDirected: both triggers, change-feed source (not latest-only), entity e0 written twice so that the
+// first batch of a full sync replays its superseded version; incremental run first, then the full sync, then an
+// incremental run again.
+func c08GenDirected(r *rand.Rand, n int) C08Sched {
+	sc := C08Sched{Sink: "dataset", Triggers: []string{"incr", "full"}, Batch: 1 + n%2, Reuse: r.Intn(2) == 0, NIDs: 4}
+	nm := 1 + (n/2)%2
+	for i := 0; i < nm; i++ {
+		sc.Members = append(sc.Members, C08Member{Name: fmt.Sprintf("s%d", i)})
+	}
+	if n%4 == 3 {
+		sc.Sink = "http" // entities instead of changes: no replay of old versions, the shape must stay silent
+	}
+	v := gen.NewVocab(sc.NIDs, 3, 2)
+	ent := func(i int, val string) model.Ent {
+		return model.NormEnt(model.Ent{ID: v.IDs[i], Props: map[string]any{v.Props[0]: val, v.Props[1]: float64(r.Intn(9))}, Refs: map[string]any{}})
+	}
+	w := func(ds string, ents ...model.Ent) C08Step { return C08Step{Kind: "write", DS: ds, Ents: ents} }
+	sc.Steps = append(sc.Steps, w("s0", ent(0, "v1"), ent(nm, "v1")), w("s0", ent(0, "v2")))
+	if nm == 2 {
+		sc.Steps = append(sc.Steps, w("s1", ent(1, "v1"), ent(3, "v1")), w("s1", ent(1, "v2")))
+	}
+	sc.Steps = append(sc.Steps, C08Step{Kind: "run", Type: "incr"})
+	if r.Intn(2) == 0 {
+		sc.Steps = append(sc.Steps, w("s0", ent(2*nm%4, "v3")))
+	}
+	sc.Steps = append(sc.Steps, C08Step{Kind: "run", Type: "full"}, C08Step{Kind: "run", Type: "incr"})
+	return sc
+}
+
 type c08Cand struct {
 	f  C08Fault
 	nt bool
@@ -1365,8 +1425,20 @@ func c08Jobs(ctx *Ctx) error {
 	if v, err := strconv.Atoi(ctx.Arg("faults", "")); err == nil {
 		perSched = v
 	}
+	// the first schedules of every child are directed at one shape that random choice rarely produces in the quick
+	// tier: incremental run first, then a full sync that replays a superseded version in its first batch and is
+	// aborted right there, then an incremental run
+	directed := 2
+	if v, err := strconv.Atoi(ctx.Arg("directed", "")); err == nil {
+		directed = v
+	}
 	for n := 0; n < ctx.Cases; n++ {
-		sc := c08Gen(r)
+		var sc C08Sched
+		if n < directed {
+			sc = c08GenDirected(r, n)
+		} else {
+			sc = c08Gen(r)
+		}
 		fr := rand.New(rand.NewSource(ctx.Seed*7919 + int64(n))) // fault choice: own stream, the schedule generator must not depend on what the hub did
 		probe := &c08Probe{Runs: map[int]*c08RunMeasure{}}
 		ok := c08RunCase(ctx, C08Case{Sched: sc, Fault: C08Fault{Kind: "none", Step: -1}}, probe)
@@ -1380,7 +1452,25 @@ func c08Jobs(ctx *Ctx) error {
 			runIdx = append(runIdx, i)
 		}
 		sort.Ints(runIdx)
-		if ctx.Tier == "thorough" {
+		if n < directed {
+			for _, i := range runIdx {
+				m := probe.Runs[i]
+				if m.Type != "full" || m.Hits[c08PFullS] < 2 {
+					continue
+				}
+				B := int(m.Hits[c08PFullS])
+				mk := func(kind, point string, hit int) c08Cand {
+					f := C08Fault{Kind: kind, Step: i, Point: point, Hit: hit, Recover: "incr", Batches: B, Requests: m.Requests}
+					return c08Cand{f: f, nt: c08Nontrivial(f)}
+				}
+				cands = append(cands, mk("crash", c08PFullS, 1), mk("kill", c08PFullS, 1), mk("crash", c08PFullS, 1+fr.Intn(B)), mk("kill", c08PFullE, 1))
+				if sc.Sink == "http" {
+					cands = append(cands, mk("sink400", "", 2))
+				}
+				break
+			}
+			ctx.Out.Stat("directed_schedules", 1)
+		} else if ctx.Tier == "thorough" {
 			// every batch index x fault kind x recovery type of one designated run (the one with most batches)
 			best, bestB := -1, -1
 			for _, i := range runIdx {
